@@ -226,3 +226,77 @@ Proof.
   destruct (BufferTop.model_passes_t3_t4 fc fp limN limS ops) as [C D].
   rewrite A, B, C, D, (model_passes_t5 fc fp limN limS ops). reflexivity.
 Qed.
+
+(* ---------- the converse: on a parents-closed DAG (rank hypothesis of T5) the checker's peeling
+   succeeds, so t5_check's premise is not vacuously false on such inputs *)
+Lemma filter_length_le' : forall {A} (p : A -> bool) l, (length (filter p l) <= length l)%nat.
+Proof. intros A p l; induction l as [|a l IH]; simpl; auto. destruct (p a); simpl; lia. Qed.
+
+Definition unresolved (cs : list entry) (res : list N) : list entry :=
+  filter (fun x => negb (memN (eid x) res)) cs.
+
+Lemma min_rank_exists : forall (rank : N -> nat) (l : list entry), l <> [] ->
+  exists x, In x l /\ forall y, In y l -> (rank (eid x) <= rank (eid y))%nat.
+Proof.
+  intros rank l; induction l as [|a l IH]; intros H; [contradiction|].
+  destruct l as [|b l'].
+  - exists a. split; [left; auto|]. intros y [Hy|[]]; subst; lia.
+  - destruct IH as [m [Hm Hmin]]; [discriminate|].
+    destruct (Nat.le_gt_cases (rank (eid a)) (rank (eid m))) as [L|L].
+    + exists a. split; [left; auto|]. intros y [Hy|Hy]; [subst; lia|]. specialize (Hmin y Hy). lia.
+    + exists m. split; [right; auto|]. intros y [Hy|Hy]; [subst; lia | apply Hmin; auto].
+Qed.
+
+Lemma peel_round_progress : forall (rank : N -> nat) cs res,
+  (forall x, In x cs -> forall p, In p (pars x) ->
+     (exists y, In y cs /\ eid y = p) /\ (rank p < rank (eid x))%nat) ->
+  let res' := res ++ map eid (filter (fun x => negb (memN (eid x) res) && forallb (fun p => memN p res) (pars x)) cs) in
+  (length (unresolved cs res') <= length (unresolved cs res))%nat
+  /\ (unresolved cs res <> [] -> (length (unresolved cs res') < length (unresolved cs res))%nat).
+Proof.
+  intros rank cs res Dag res'.
+  assert (Mono : forall x, In x cs -> negb (memN (eid x) res') = true -> negb (memN (eid x) res) = true).
+  { intros x _ H. apply negb_true_iff in H. apply negb_true_iff. apply memN_false in H. apply memN_false.
+    intros C. apply H. unfold res'. apply in_or_app; left; exact C. }
+  split; [apply filter_len_mono; exact Mono|].
+  intros Hne. destruct (min_rank_exists rank (unresolved cs res) Hne) as [x [Hx Hmin]].
+  unfold unresolved in Hx. apply filter_In in Hx. destruct Hx as [Hxc Hxr].
+  assert (Hp : forallb (fun p => memN p res) (pars x) = true).
+  { apply forallb_forall. intros p Hp. destruct (Dag x Hxc p Hp) as [[y [Hy Ey]] Rk].
+    destruct (memN p res) eqn:M; auto. exfalso.
+    assert (Hyu : In y (unresolved cs res)).
+    { unfold unresolved. apply filter_In. split; auto. rewrite Ey, M. reflexivity. }
+    specialize (Hmin y Hyu). rewrite Ey in Hmin. lia. }
+  unfold unresolved. apply filter_len_strict with (x := x); auto.
+  apply negb_false_iff. apply memN_In. unfold res'. apply in_or_app; right.
+  apply in_map. apply filter_In. split; auto. rewrite Hxr, Hp. reflexivity.
+Qed.
+
+Lemma peel_unresolved : forall (rank : N -> nat) cs,
+  (forall x, In x cs -> forall p, In p (pars x) ->
+     (exists y, In y cs /\ eid y = p) /\ (rank p < rank (eid x))%nat) ->
+  forall fuel res, (length (unresolved cs (peel fuel cs res)) <= length (unresolved cs res) - fuel)%nat.
+Proof.
+  intros rank cs Dag. induction fuel as [|f IH]; intros res; simpl; [lia|].
+  destruct (peel_round_progress rank cs res Dag) as [A B]. cbv zeta in A, B.
+  specialize (IH (res ++ map eid (filter (fun x => negb (memN (eid x) res) && forallb (fun p => memN p res) (pars x)) cs))).
+  destruct (unresolved cs res) as [|u us] eqn:E.
+  - simpl in *. lia.
+  - assert (Hne : u :: us <> []) by discriminate. specialize (B Hne). simpl in *. lia.
+Qed.
+
+Theorem closed_dag_complete : forall (rank : N -> nat) cs,
+  (forall x, In x cs -> forall p, In p (pars x) ->
+     (exists y, In y cs /\ eid y = p) /\ (rank p < rank (eid x))%nat) ->
+  closed_dag cs = true.
+Proof.
+  intros rank cs Dag. unfold closed_dag. apply forallb_forall. intros x Hx.
+  pose proof (peel_unresolved rank cs Dag (length cs) []) as L.
+  assert (L0 : (length (unresolved cs []) <= length cs)%nat) by (unfold unresolved; apply filter_length_le').
+  assert (E : unresolved cs (peel (length cs) cs []) = []).
+  { destruct (unresolved cs (peel (length cs) cs [])); [reflexivity | simpl in L; lia]. }
+  destruct (memN (eid x) (peel (length cs) cs [])) eqn:M; auto. exfalso.
+  assert (In x (unresolved cs (peel (length cs) cs []))).
+  { unfold unresolved. apply filter_In. split; auto. rewrite M. reflexivity. }
+  rewrite E in H. contradiction.
+Qed.
